@@ -13,6 +13,7 @@ import (
 	"strconv"
 	"strings"
 	"sync/atomic"
+	"syscall"
 	"time"
 
 	grpc_ctxtags "github.com/grpc-ecosystem/go-grpc-middleware/tags"
@@ -272,6 +273,7 @@ type Result struct {
 	Code      string    `json:"c,omitempty"` // grpc status code name of the answer
 	Wire      int       `json:"w,omitempty"`
 	DurMs     int64     `json:"d,omitempty"`
+	CPUMs     int64     `json:"cpu,omitempty"` // process CPU time spent on the whole case (setup included)
 	Panic     *panicRec `json:"p,omitempty"`
 	Note      string    `json:"n,omitempty"`
 	Delivered bool      `json:"dl,omitempty"`
@@ -496,7 +498,11 @@ func (w *worker) run(c Case) (res Result) {
 	case "cyclic":
 		e := w.freshStore(sv, true)
 		stored, ctxual := cyclicData(c.Scn, c.Arg)
-		w.writeAPI(sv, e, stored)
+		if cyclicDirect[c.Scn] {
+			w.storeDirect(sv, e, stored)
+		} else {
+			w.writeAPI(sv, e, stored)
+		}
 		req := query(c.RPC, e, "doc", "1", "can_view", "user:zed")
 		if len(ctxual) > 0 {
 			if !setContextual(req, ctxual) {
@@ -593,6 +599,14 @@ func procStatusKB(key string) int64 {
 	return 0
 }
 
+func cpuMs() int64 {
+	var ru syscall.Rusage
+	if syscall.Getrusage(syscall.RUSAGE_SELF, &ru) != nil {
+		return 0
+	}
+	return (ru.Utime.Sec+ru.Stime.Sec)*1000 + int64(ru.Utime.Usec+ru.Stime.Usec)/1000
+}
+
 func workerMain() int {
 	out := os.NewFile(3, "c19-proto")
 	if out == nil {
@@ -612,7 +626,9 @@ func workerMain() int {
 			}
 			for i, c := range b.Cases {
 				fmt.Fprintf(out, "S %d\n", i)
+				cpu0 := cpuMs()
 				res := w.run(c)
+				res.CPUMs = cpuMs() - cpu0
 				rb, _ := json.Marshal(res)
 				fmt.Fprintf(out, "D %d %s\n", i, rb)
 			}
